@@ -134,7 +134,7 @@ pub fn c08() -> Property {
                 replay: replay_hist,
                 rule: "world histories (hist.rs, mixed profile) with builders, lazy insert / insert_all / lazy builders (executed, or dropped with the world before maintain), entity deletion through all paths over 2..6 storages; same ledger invariant; non-trivial = overwrite/remove + death of an entity with >= 2 components + live components at world drop", exe_env: None
             },
-            // CHANGESET_C08
+            crate::props_join::c08_changeset_sub(),
         ],
         crash_is_violation: true,
         assumptions: &["the ledger (thread-local, serial + canary per value) observes every construction and destruction of component values"],
@@ -354,9 +354,88 @@ pub fn c19() -> Property {
                 replay: c19_replay,
                 rule: "generated prefix (<=20 ops quick, <=60 thorough) + one destroying operation (clear, delete_all, delete_entity, delete_entities incl. failing batch, maintain with a pending deletion, overwrite, remove, GenericWriteStorage::remove, drain, lazy insert + maintain, entry replace/insert, dropping the world) over all 12 storage configurations; a dry run lists the values the operation destroys, then the identical run is repeated once per such value (all of them, capped at 24 spread evenly incl. first and last) with that value's destructor panicking; after catch_unwind: no serial destroyed twice, every value visible through get/join/slices (this storage and an auxiliary one) is live with an intact canary, the model is re-synchronised from the observable state and a generated continuation of ordinary operations is checked differentially, then the world is dropped (again: no double destruction); leaks after the panic are only counted; non-trivial = the operation destroys >= 2 values and the panic was caught", exe_env: None
             },
-            // CHANGESET_C19
+            crate::props_join::c19_changeset_sub(),
         ],
         crash_is_violation: true,
         assumptions: &["exactly one destructor panics per run (a second panic during unwinding aborts by language rules)", "which components survive a destructor panic is not asserted"],
+    }
+}
+
+// --------------------------------------------------------------------------- C13
+
+fn c13_seq_run(ctx: &ShardCtx) -> ShardResult {
+    let max_ops = ctx.tier.pick(40, 150);
+    let cases = ctx.tier.pick(800, 20_000);
+    run_proptest(ctx, stoseq::restrict_case_strategy(max_ops), cases, 31, |c, stats| {
+        let f = stoseq::run_case_dyn(c, &NORMAL)?;
+        label(stats, c, &f);
+        stats.case(c, f.partial_mutable_access && f.distinct_indices >= 3);
+        Ok(())
+    })
+}
+
+fn c13_hist_eval(h: &hist::History) -> Result<hist::Facts, Violation> {
+    match hist::run_history(h, false) {
+        Ok((f, _)) => Ok(f),
+        Err(mut v) => {
+            // other entities' components disturbed by get_other_mut show up in the state comparison
+            if v.prop == "C05" && h.ops.iter().any(|o| matches!(o, hist::Op::RestrictOther(..))) {
+                v.prop = "C13".to_string();
+            }
+            // a dead handle accepted by get_other breaks C13's "same aliveness rules" clause too
+            if v.prop == "C03" && v.signature == "stale-get_other" {
+                v.prop = "C13".to_string();
+            }
+            Err(v)
+        }
+    }
+}
+
+fn c13_hist_run(ctx: &ShardCtx) -> ShardResult {
+    let max_ops = ctx.tier.pick(40, 120);
+    let cases = ctx.tier.pick(600, 15_000);
+    run_proptest(ctx, hist::history_strategy(hist::RESTRICT_PROFILE, max_ops), cases, 32, |h, stats| {
+        let f = c13_hist_eval(h)?;
+        if f.restrict_other_live > 0 {
+            stats.label("get_other_live");
+        }
+        if f.restrict_other_stale > 0 {
+            stats.label("get_other_stale");
+        }
+        stats.case(h, f.restrict_other_live > 0 && f.restrict_other_stale > 0);
+        Ok(())
+    })
+}
+
+fn c13_hist_replay(v: &Value) -> Verdict {
+    let h: hist::History = parse_case("hist", v)?;
+    c13_hist_eval(&h).map(|_| ())
+}
+
+pub fn c13() -> Property {
+    let mut subs = vec![
+        SubCheck {
+            name: "restricted-sequences",
+            shards: |t: Tier| t.pick(6, 12),
+            run: c13_seq_run,
+            replay: replay_seq,
+            rule: "sequences over all 12 storage configurations that change the content (insert, remove, entity deletion / creation, emission toggling) interleaved with restricted joins: lend_join (PairedStorageWriteExclusive) and join (PairedStorageWriteShared) over &mut restrict_mut() with a generated subset of items fetched mutably and written; visited items == storage members in order, item.get() == map value, afterwards the full storage equals the map (only the chosen entities changed, mask unchanged) and on tracked storages the Modified events are exactly the mutably fetched set; non-trivial = >= 3 distinct indices and a strict non-empty subset fetched mutably",
+            exe_env: None,
+        },
+        SubCheck {
+            name: "restricted-histories",
+            shards: |t: Tier| t.pick(4, 8),
+            run: c13_hist_run,
+            replay: c13_hist_replay,
+            rule: "world histories (creations, deletions through all paths, maintain, storage ops) with many get_other / get_other_mut lookups through PairedStorageRead and PairedStorageWriteExclusive items for live members, live non-members, dead handles and stale handles whose index is occupied again; the lookup must follow the storage's own aliveness and membership rules; non-trivial = a history with both a live and a dead/stale lookup",
+            exe_env: None,
+        },
+    ];
+    subs.extend(crate::props_join::c13_subs());
+    Property {
+        id: "C13",
+        subs,
+        crash_is_violation: true,
+        assumptions: &["map / timeline models of stoseq.rs, hist.rs and joinworld.rs"],
     }
 }
